@@ -67,7 +67,7 @@ def c_lit(v):
     return '%dU' % v if v > 2**63 - 1 else '%d' % v
 
 
-def compile_asserts(run, rule, function, site, body, asserts, thorough, flags=()):
+def compile_asserts(run, rule, function, site, body, asserts, thorough, flags=(), gcc_only=()):
     """compile-only witness: body + _Static_asserts under gcc (and clang when thorough);
     a failing twin must fail first"""
     compilers = ['gcc', 'clang'] if thorough else ['gcc']
@@ -80,9 +80,11 @@ def compile_asserts(run, rule, function, site, body, asserts, thorough, flags=()
             r = subprocess.run([cc, '-fsyntax-only', '-std=gnu11', '-w'] + list(flags) + [p], capture_output=True, text=True)
             if r.returncode == 0 or 'static' not in r.stderr.lower():
                 raise AnalysisError('C10: failing twin did not fail under %s: %s' % (cc, r.stderr[-300:]))
+            # (clang does not fold floating-point expressions in integer constant expressions; gcc does)
+            these = [x for x in asserts if not (cc == 'clang' and x[1] in gcc_only)]
             p = os.path.join(tmp, 'w.c')
             with open(p, 'w') as f:
-                f.write(body + '\n' + '\n'.join(a for a, _m, _d in asserts) + '\n')
+                f.write(body + '\n' + '\n'.join(a for a, _m, _d in these) + '\n')
             r = subprocess.run([cc, '-fsyntax-only', '-std=gnu11', '-w'] + list(flags) + [p], capture_output=True, text=True)
             failed = set()
             if r.returncode != 0:
@@ -92,7 +94,7 @@ def compile_asserts(run, rule, function, site, body, asserts, thorough, flags=()
                         failed.add(m.group(1).strip())
                 if not failed:
                     raise AnalysisError('C10: witness TU does not compile under %s: %s' % (cc, r.stderr[-500:]))
-            for _a, msg, detail in asserts:
+            for _a, msg, detail in these:
                 run.ob(rule, function, '%s [%s]' % (msg, cc), msg not in failed, site, detail)
     finally:
         shutil.rmtree(tmp, ignore_errors=True)
